@@ -35,11 +35,11 @@ def choose_pool(hist, sid):
     calls = any(h["act"] in ("Call", "CallUnwind") and not h.get("match", True) for h in hist)
     cands = ["rust"]
     # counted fakes are kept on Rust-ABI targets: a panic inside an extern "C" fake aborts by language rule
-    if not has_bool and not has_counted and gates <= {"ok", "sig", "bool", "null"} and not calls:
+    if not has_bool and not has_counted and gates <= {"ok", "sig", "bool", "null", "abandon"} and not calls:
         cands.append("libc")
-    if not has_counted and gates <= {"ok", "sig"} and not calls:
+    if not has_counted and gates <= {"ok", "sig", "abandon"} and not calls:
         cands.append("generic")
-    if not has_bool and not has_counted and gates <= {"ok", "sig"} and not calls:
+    if not has_bool and not has_counted and gates <= {"ok", "sig", "abandon"} and not calls:
         cands.append("async")
     return cands[sid % len(cands)]
 
@@ -103,7 +103,7 @@ def compare_replay(hist, events, nf):
     calls = []
     ev_i = 0
     evs = [e for e in events if e["ev"] in ("Call", "InstallEnd", "DropEnd", "ChildExit", "Acquire")]
-    exp = [h for h in hist if h["act"] in ("Probe", "InstallOk", "InstallPanic", "End", "VerifyPanic", "Call", "CallUnwind")]
+    exp = [h for h in hist if h["act"] in ("Probe", "InstallOk", "InstallPanic", "InstallAbandoned", "End", "VerifyPanic", "Call", "CallUnwind")]
     pending_verify = None
     after_end = False
     unwound_end = False
@@ -143,7 +143,7 @@ def compare_replay(hist, events, nf):
             if ev_i < len(evs) and evs[ev_i]["ev"] == "Call" and evs[ev_i].get("after_unwind_call"):
                 bad.append(("C06", "call returned %s, specification says it panics (%s)" % (evs[ev_i]["res"], h["out"])))
                 ev_i += 1
-        elif a in ("InstallOk", "InstallPanic"):
+        elif a in ("InstallOk", "InstallPanic", "InstallAbandoned"):
             while ev_i < len(evs) and evs[ev_i]["ev"] != "InstallEnd":
                 ev_i += 1
             if ev_i >= len(evs):
@@ -151,6 +151,8 @@ def compare_replay(hist, events, nf):
                 break
             e = evs[ev_i]
             ev_i += 1
+            if a == "InstallAbandoned" and e["outcome"] != "abandoned":
+                bad.append(("C03", "a builder dropped without a terminal call ended as %s" % e["outcome"]))
             if a == "InstallOk" and e["outcome"] != "ok":
                 bad.append(("C01", "installation panicked (%s) where the specification installs" % e.get("msg", "")))
             if a == "InstallPanic":
@@ -1336,6 +1338,10 @@ DEVIATIONS = [
     ("MC_Async", "MC_Async_q", {"RestoreOnDrop": "FALSE"}, ("FakedOnlyWhileAlive", "LastFakeWins")),
     ("MC_Async", "MC_Async_q", {"IsolateSiblings": "FALSE"}, ("LastFakeWins",)),
     ("MC_Arms", "MC_Arms", {"AssignBeforeCount": "TRUE"}, ("SideEffects",)),
+    # documented hazards outside the listed properties: reachable when the switch is on
+    ("MC_Lifecycle", "MC_Lifecycle_q1", {"AllowNested": "TRUE"}, ("NoSelfDeadlock",)),
+    ("MC_Lifecycle", "MC_Lifecycle_q1", {"KeepPagesWritable": "TRUE"}, ("WX",)),
+    ("MC_Lock", "MC_Lock_q", {"OthersCall": '"always"'}, ("NoFault",)),
     ("MC_ArmSeq", "MC_ArmSeq", {"Scratch": "7"}, ("OnlyScratch",)),
     ("MC_ArmSeq", "MC_ArmSeq", {"Scratch": "9"}, ("OnlyScratch",)),
     ("MC_ArmSeq", "MC_ArmSeq", {"ImmT": "2"}, ("Reaches", "OneLoad")),
@@ -1411,6 +1417,12 @@ def do_selftest():
         good = v is not None and (v["name"] in names or v["kind"] in ("temporal", "action-property") and ("temporal" in names or v["name"] in names))
         print("  %-14s %-40s -> %s %s" % (module, over, (v or {}).get("name"), "ok" if good else "UNEXPECTED"))
         ok = ok and good
+    print("== user discipline that rules the drop hazard out: others call only while nobody is inside the library")
+    cfg = tlc.make_cfg("MC_Lock_q", {"OthersCall": '"atUser"'}, "dev_MC_Lock_atUser")
+    r = tlc.check("MC_Lock", cfg, workers=TLC_WORKERS, timeout=1200, coverage=False)
+    good = r["violation"] is None
+    print("  MC_Lock OthersCall=atUser -> %s (%d states) %s" % ((r["violation"] or {}).get("name"), r["distinct"], "ok" if good else "UNEXPECTED"))
+    ok = ok and good
     print("== trace corruption: TLC must reject")
     vlib.build_harness()
     hists, gr = gen_behaviours("MC_LifecycleApi_q")
